@@ -66,6 +66,14 @@ DeepRows(f) == {<<p, f[p]>> : p \in DOMAIN f}
 \* second updates: the shapes that reach below the top level
 DeepSecond == {S \in DeepShapes : \E p \in S : Len(p) >= 2}
 
+\* ---- _reduce: the update value is a reduction over a subtree of the hierarchy
+\* (here: initial value plus the sum of the leaves below `from`), then applied
+\* with the variable's updater
+ReduceLeaves == [x : 0..2, y : 0..2]
+ReduceCases == {[leaves |-> lv, initial |-> i, f |-> f, v |-> v] :
+                  lv \in ReduceLeaves, i \in {0, 5}, f \in {"accumulate", "set"}, v \in {0, 3}}
+ReduceOut(rc) == ApplyS(rc.f, rc.v, rc.initial + rc.leaves.x + rc.leaves.y)
+
 \* ---- dict_value: current maps keys to inner dictionaries
 DKeys == {"a", "b", "c"}
 InnerD == {[x |-> 1], [x |-> 2, y |-> 5]}
@@ -165,6 +173,7 @@ Export ==
         dict_value |-> SetToSeq(UNION {{Expected([kind |-> "dict_value", cur |-> cur, op |-> op]) :
                                op \in {o \in DictOps(cur) : ValidOp(o)}} : cur \in Currents}),
         units |-> SetToSeq({Expected([kind |-> "units", cs |-> cs]) : cs \in UnitCases}),
+        reduce |-> SetToSeq({[rc |-> rc, out |-> ReduceOut(rc)] : rc \in ReduceCases}),
         deep |-> SetToSeq({[v |-> DeepRows(DeepOf(sv, 1)), u1 |-> DeepRows(DeepOf(s1, 2)),
                             u2 |-> DeepRows(DeepOf(s2, 3)),
                             out1 |-> DeepRows(DeepMerge(DeepOf(sv, 1), DeepOf(s1, 2))),
